@@ -40,6 +40,9 @@ pub struct Route {
     pub out_file: bool,
     /// the -o path already exists and holds a longer, older result (a re-used output path)
     pub stale_out: bool,
+    /// the -o path is the input file itself (the input is read completely before the result is
+    /// written, so solving a file "in place" works)
+    pub in_place: bool,
 }
 
 /// what a re-used output path holds before the run: an older, longer result object
@@ -63,10 +66,13 @@ impl Route {
             _ => String::new(),
         };
         let out_file = r.coin(0.3);
-        Route { stdin: r.coin(0.4), ext, flag, out_file, stale_out: out_file && r.coin(0.5) }
+        let stdin = r.coin(0.4);
+        let stale_out = out_file && r.coin(0.5);
+        let in_place = out_file && !stdin && !stale_out && r.coin(0.25);
+        Route { stdin, ext, flag, out_file, stale_out, in_place }
     }
     pub fn to_json(&self) -> Value {
-        json!({"stdin": self.stdin, "ext": self.ext, "flag": self.flag, "out_file": self.out_file, "stale_out": self.stale_out})
+        json!({"stdin": self.stdin, "ext": self.ext, "flag": self.flag, "out_file": self.out_file, "stale_out": self.stale_out, "in_place": self.in_place})
     }
     pub fn from_json(v: &Value) -> Route {
         Route {
@@ -75,6 +81,7 @@ impl Route {
             flag: v["flag"].as_str().map(|s| s.to_string()),
             out_file: v["out_file"].as_bool().unwrap_or(false),
             stale_out: v["stale_out"].as_bool().unwrap_or(false),
+            in_place: v["in_place"].as_bool().unwrap_or(false),
         }
     }
 }
@@ -194,6 +201,8 @@ pub struct ProcOut {
     pub report: Option<Value>,
     pub timed_out: bool,
     /// a pre-existing -o file was still there, byte for byte, after the run
+    /// the -o path was the input file itself
+    pub in_place: bool,
     pub stale_out_left_untouched: bool,
     /// the -o path existed (with older, longer content) before the run
     pub stale_out: bool,
@@ -250,13 +259,16 @@ pub fn run_simcli(bytes: &[u8], route: &Route, opts: &Opts, env: &SimEnv, extra_
     if let Some(f) = &route.flag {
         cmd.arg("--input-format").arg(f);
     }
+    let mut in_path = None;
     if !route.stdin {
         let name = if route.ext.is_empty() { "game".to_string() } else { format!("game.{}", route.ext) };
         let path = scratch.0.join(name);
         std::fs::write(&path, bytes).expect("cannot write input file");
         cmd.arg("-i").arg(&path);
+        in_path = Some(path);
     }
-    let out_path = scratch.0.join("result.json");
+    let in_place = route.in_place && route.out_file && in_path.is_some();
+    let out_path = if in_place { in_path.clone().unwrap() } else { scratch.0.join("result.json") };
     if route.out_file {
         cmd.arg("-o").arg(&out_path);
         if route.stale_out {
@@ -323,8 +335,9 @@ pub fn run_simcli(bytes: &[u8], route: &Route, opts: &Opts, env: &SimEnv, extra_
         stdout: output.stdout,
         stderr,
         // an untouched pre-existing file counts as "no file written"
-        out_file: if route.out_file { std::fs::read(&out_path).ok().filter(|b| !(route.stale_out && b == STALE_OUTPUT.as_bytes())) } else { None },
+        out_file: if route.out_file { std::fs::read(&out_path).ok().filter(|b| !(route.stale_out && b == STALE_OUTPUT.as_bytes()) && !(in_place && &b[..] == bytes)) } else { None },
         stale_out: route.out_file && route.stale_out,
+        in_place,
         stale_out_left_untouched: route.out_file && route.stale_out && std::fs::read(&out_path).ok().map(|b| b == STALE_OUTPUT.as_bytes()).unwrap_or(false),
         report: std::fs::read_to_string(&report).ok().and_then(|s| serde_json::from_str(&s).ok()),
         timed_out,
